@@ -117,6 +117,19 @@ CLAIMS = {
              "elementwise) and RangeError/TypeError outcomes must equal the transcription of ECMA-262 22.1.3.",
         technique="differential symbolic execution of the string built-ins vs a spec transcription (CrossHair/z3)",
         design_ref="DESIGN.md section 4 (C16)"),
+    "C11": dict(
+        text="The real Context.set/get/eval/_to_python, values.python_to_js and the native call protocol are executed on symbolic "
+             "values: JSON-like values are built from solver-chosen shape indices (kind per node, lists/dicts/shared sub-objects, "
+             "depth <= 2 quick / 3 thorough) with symbolic leaves (all integers, all doubles, all strings of length <= 2) and keys "
+             "from a pool of JavaScript-special names; get(set(v)) and eval(name) must be type-exactly equal to v (True is not 1, "
+             "-0.0 keeps its sign, NaN is NaN), share no list/dict with the argument, each other or the context (mutation probes in "
+             "both directions). Script results over 16 shape templates with symbolic primitives must convert as specified "
+             "(undefined/null -> None, arrays -> lists, objects -> dicts of own data properties: no accessors, no inherited). "
+             "Exposed callables: 7 call forms x 0-3 arguments of 11 kinds arrive in order and unchanged; return values of 14 kinds "
+             "(None, primitives, lists, dicts, tuples, engine objects) observed through 10 script contexts arrive as the "
+             "corresponding JavaScript values; set/get/eval histories of length <= 3 against a dict model.",
+        technique="symbolic execution of the real conversion and call-protocol code on symbolic values (CrossHair/z3), solver-indexed shapes",
+        design_ref="DESIGN.md section 4 (C11)"),
     "C13": dict(
         text="The real lexer and parser against a transcription of the ECMAScript expression grammar written as a printer "
              "(vf/refsem/syntax.py): every pair of operator kinds (57 kinds: binary, logical, unary, update, assignment, "
